@@ -115,6 +115,15 @@ def build(cfg, path, load):
     ds = create_design_space()
     ds.add_variable("x", 2, lower_bound=-5.0, upper_bound=5.0, value=np.array([0.0, 0.0]))
     kind = "DOE" if cfg["scen"].startswith("DOE") else "MDO"
+    if "IDF" in cfg["scen"]:
+        # IDF: the couplings are design variables, every discipline is executed separately for its own functions,
+        # and an observable is computed by its own discipline execution
+        ds.add_variable("y1", 1, lower_bound=-10.0, upper_bound=10.0, value=np.array([0.5]))
+        ds.add_variable("y2", 1, lower_bound=-10.0, upper_bound=10.0, value=np.array([0.25]))
+        s = create_scenario([D1(), D2()], "f", ds, formulation_name="IDF", scenario_type=kind)
+        s.add_observable("g")
+        s.set_optimization_history_backup(path, load=load, at_each_iteration=cfg["mode"] == "iteration", at_each_function_call=cfg["mode"] == "call")
+        return s
     if "MDF" in cfg["scen"]:
         s = create_scenario([D1(), D2()], "f", ds, formulation_name="MDF", scenario_type=kind, main_mda_name="MDAGaussSeidel",
                             main_mda_settings={"tolerance": 1e-12, "max_mda_iter": 30})
@@ -212,13 +221,41 @@ def _names_at(sn, x):
     return None
 
 
-def _best_feasible(sn, tol=1e-6):
+def _constraints(cfg):
+    """(name, kind, tolerance) of the constraints of the scenario (gemseo's default tolerances), and its observables."""
+    if "IDF" in cfg["scen"]:
+        return [("y1", "eq", 1e-2), ("y2", "eq", 1e-2)], {"g"}
+    if "Vec" in cfg["scen"]:
+        return [("c", "ineq", 1e-4)], set()
+    return [("g", "ineq", 1e-4)], set()
+
+
+def _best_feasible(sn, cfg):
+    """Best objective among the recorded points that have a scalar objective and every constraint within tolerance."""
+    cons, _ = _constraints(cfg)
     best = None
     for p, vals in sn or []:
-        if "f" in vals and len(vals["f"]) == 1 and "g" in vals and vals["g"][0] <= tol:
-            if best is None or vals["f"][0] < best:
-                best = vals["f"][0]
+        if "f" not in vals or len(vals["f"]) != 1 or any(n not in vals for n, _, _ in cons):
+            continue
+        ok = all((max(vals[n]) <= t) if k == "ineq" else (max(abs(v) for v in vals[n]) <= t) for n, k, t in cons)
+        if ok and (best is None or vals["f"][0] < best):
+            best = vals["f"][0]
     return best
+
+
+def _only_observables_missing(final, ref_final, cfg, coupled):
+    """The restarted history equals the uninterrupted one except that some entries lack observable values."""
+    _, observables = _constraints(cfg)
+    if not observables or len(final) != len(ref_final):
+        return False
+    some = False
+    for (pa, va), (pb, vb) in zip(final, ref_final):
+        if pa != pb or not set(va) <= set(vb) or not (set(vb) - set(va)) <= observables:
+            return False
+        if any(va[k] != vb[k] for k in va):
+            return False
+        some = some or set(va) != set(vb)
+    return some
 
 
 def _check_restart(cfg, backup, obs, ref_final, tally, case, stage):
@@ -244,7 +281,7 @@ def _check_restart(cfg, backup, obs, ref_final, tally, case, stage):
             tally.violation({**sig, "invariant": "loaded-entry-lost-or-changed"}, case, f"backup entry {p}: {vals} -> {got}")
             break
     # optimum at least as good as the best loaded one
-    best = _best_feasible(backup)
+    best = _best_feasible(backup, cfg)
     if best is not None:
         if obs["f_opt"] is None or not obs["is_feasible"] or obs["f_opt"] > best + 1e-12:
             tally.violation({**sig, "invariant": "optimum-worse-than-best-loaded"}, case, f"best loaded feasible f={best}, reported f_opt={obs['f_opt']} feasible={obs['is_feasible']}")
@@ -252,7 +289,10 @@ def _check_restart(cfg, backup, obs, ref_final, tally, case, stage):
     if not cfg["norm"] and cfg["deterministic"]:
         if not _same_history(final, ref_final, "MDF" in cfg["scen"]):
             n = len(ref_final)
-            shape = "extends-uninterrupted-history" if len(final) > n and _same_history(final[:n], ref_final, "MDF" in cfg["scen"]) else "diverges"
+            head_ok = _same_history(final[:n], ref_final, "MDF" in cfg["scen"]) or _only_observables_missing(final[:n], ref_final, cfg, False)
+            shape = "extends-uninterrupted-history" if len(final) > n and head_ok else "diverges"
+            if _only_observables_missing(final, ref_final, cfg, False):
+                shape = "observable-missing-at-loaded-point"
             tally.violation({**sig, "invariant": "restart-history-differs-from-uninterrupted", "shape": shape, "counter_reset": not cfg.get("keep_counter", False),
                              "kind": "DOE" if cfg["scen"].startswith("DOE") else "MDO"}, case,
                             f"{len(final)} entries vs {len(ref_final)} in the uninterrupted run; first difference: "
@@ -371,7 +411,8 @@ def configs(ctx):
         ("DOE-DOpt", "PYDOE_FULLFACT", 0, True),
         ("DOE-DOpt", "CustomDOE", 0, True),
         ("DOE-MDF", "CustomDOE", 0, True),
-        ("DOE-Vec", "CustomDOE", 0, True),  # array-valued objective + scalar constraint (mixed storage kinds in the file)
+        ("DOE-Vec", "CustomDOE", 0, True),
+        ("MDO-IDF", "SLSQP", 3 if not ctx.thorough else 6, True),  # consistency constraints + an observable with its own discipline execution  # array-valued objective + scalar constraint (mixed storage kinds in the file)
     ]
     for name, algo, mi, det in scen:
         for mode in ("call", "iteration"):
